@@ -10,6 +10,10 @@
 #include <nano/linear/result.h>
 #include <nano/linear/util.h>
 #include <nano/machine/stats.h>
+#include <atomic>
+#include <chrono>
+#include <thread>
+#include <unistd.h>
 
 using namespace nano;
 
@@ -17,6 +21,73 @@ namespace
 {
 using vt::problem_t;
 using vt::make_problem;
+
+// a call of the library that does not come back (e.g. every worker of a pool waiting for work queued behind itself) must end as a
+// reported failure, not as a check that never finishes: while armed, a side thread records an Abort event and ends the process
+// once the deadline (VERIF_WATCHDOG_S seconds, default 240; the calls watched take well below a second) has passed
+class watchdog_t
+{
+public:
+    static watchdog_t& get()
+    {
+        static watchdog_t w;
+        return w;
+    }
+
+    void arm(const std::string& what)
+    {
+        const std::scoped_lock lock(m_mutex);
+        m_what     = what;
+        m_deadline = std::chrono::steady_clock::now() + std::chrono::seconds(m_seconds);
+        m_armed    = true;
+    }
+
+    void disarm()
+    {
+        const std::scoped_lock lock(m_mutex);
+        m_armed = false;
+    }
+
+private:
+    watchdog_t()
+    {
+        if (const auto* env = std::getenv("VERIF_WATCHDOG_S"); env != nullptr && std::atoi(env) > 0)
+        {
+            m_seconds = std::atoi(env);
+        }
+        std::thread(
+            [this]
+            {
+                for (;;)
+                {
+                    std::this_thread::sleep_for(std::chrono::milliseconds(100));
+                    const std::scoped_lock lock(m_mutex);
+                    if (m_armed && std::chrono::steady_clock::now() > m_deadline)
+                    {
+                        vt::put(vt::J("Abort").s("why", "no return within " + std::to_string(m_seconds) + " s (hang): " + m_what));
+                        _exit(3);
+                    }
+                }
+            })
+            .detach();
+    }
+
+    std::mutex                            m_mutex;
+    std::string                           m_what;
+    std::chrono::steady_clock::time_point m_deadline;
+    bool                                  m_armed{false};
+    int                                   m_seconds{240};
+};
+
+struct watched_t
+{
+    explicit watched_t(const std::string& what) { watchdog_t::get().arm(what); }
+
+    watched_t(const watched_t&)            = delete;
+    watched_t& operator=(const watched_t&) = delete;
+
+    ~watched_t() { watchdog_t::get().disarm(); }
+};
 
 // (errors, losses) of the given outputs on the given samples, from the loss's public interface
 tensor2d_t evaluate(const dataset_t& dataset, const indices_t& samples, const loss_t& loss, const tensor4d_t& outputs)
@@ -46,9 +117,39 @@ bool same_stats(const ml::stats_t& s, const tensor1d_t& values)
     ml::store_stats(copy.tensor(), r.tensor());
     const double got[12] = {s.m_mean, s.m_stdev, s.m_count, s.m_per01, s.m_per05, s.m_per10,
                             s.m_per20, s.m_per50, s.m_per80, s.m_per90, s.m_per95, s.m_per99};
+    // mean and standard deviation against the driver's own two-pass recomputation in long double (the percentiles come from the library's
+    // percentile function, which C20 decides). For nearly constant values the last bits of the values decide about the deviation: the
+    // stored one was computed from values that may differ in their last bits from the recomputed ones, hence the absolute term.
+    long double sum = 0, meansq = 0;
+    for (tensor_size_t i = 0; i < values.size(); ++i)
+    {
+        sum += values(i);
+        meansq += static_cast<long double>(values(i)) * values(i) / static_cast<long double>(std::max<tensor_size_t>(values.size(), 1));
+    }
+    const auto mean = values.size() > 0 ? sum / static_cast<long double>(values.size()) : 0.0L;
+    long double ss = 0;
+    for (tensor_size_t i = 0; i < values.size(); ++i)
+    {
+        ss += (values(i) - mean) * (values(i) - mean);
+    }
+    const auto n        = static_cast<long double>(values.size());
+    const auto refstdev = values.size() > 1 ? std::sqrt(ss / n / (n - 1)) : 0.0L; // (the library's definition: sqrt(variance / (N - 1)))
+    const auto scale    = std::sqrt(meansq);
+    // (absolute floor as in close(): the recomputed losses differ from the fit's own in their last bits - e.g. hinge losses 1 - t o of
+    // 1e-7 carry the rounding of outputs of magnitude 1)
+    const auto stdev_close = std::isfinite(got[1]) && std::fabs(static_cast<long double>(got[1]) - refstdev) <= 1e-9L * refstdev + 1e-11L * (1.0L + scale);
+    const auto mean_close  = close(got[0], static_cast<double>(mean));
+    if (!mean_close || !(stdev_close || !std::isfinite(static_cast<double>(refstdev))))
+    {
+        if (std::getenv("VERIF_DEBUG") != nullptr)
+        {
+            std::fprintf(stderr, "stats: stored mean %.17g stdev %.17g, recomputed mean %.17Lg stdev %.17Lg\n", got[0], got[1], mean, refstdev);
+        }
+        return false;
+    }
     for (int i = 0; i < 12; ++i)
     {
-        if (!close(got[i], r(i)))
+        if (i != 1 && !close(got[i], r(i)))
         {
             if (std::getenv("VERIF_DEBUG") != nullptr)
             {
@@ -256,8 +357,9 @@ void report(const std::string& model_name, tmodel& model, const problem_t& p, co
         predSumOK = same_tensor(out, outputs, 1e-12);
     }
     // learner_t::evaluate: the (errors, losses) of the fitted model as the library itself computes them for a caller, on the fitting
-    // samples and on a longer list (230 entries taken from them in another order, with repetitions: more than one batch of the
-    // library's iterator); the stored statistics are compared with the driver's values above, and these with the library's here
+    // samples and on a longer list (450 entries taken from them in another order, with repetitions: more batches of the library's
+    // iterator than the dataset's pool has threads, each predicted with the model's own batch size); the stored statistics are
+    // compared with the driver's values above, and these with the library's here
     const auto same_values = [](const tensor2d_t& lib, const tensor2d_t& own)
     {
         bool ok = lib.dims() == own.dims();
@@ -267,9 +369,12 @@ void report(const std::string& model_name, tmodel& model, const problem_t& p, co
         }
         return ok;
     };
-    bool evalOK = same_values(model.evaluate(dataset, samples, loss), values);
+    bool evalOK = false;
     {
-        indices_t other(230);
+        const watched_t watched(model_name + ": learner_t::evaluate on " + std::to_string(samples.size()) + " and on 450 samples, dataset with " +
+                                std::to_string(dataset.concurrency()) + " threads");
+        evalOK = same_values(model.evaluate(dataset, samples, loss), values);
+        indices_t other(450);
         for (tensor_size_t i = 0; i < other.size(); ++i)
         {
             other(i) = samples((i * 7 + 3) % samples.size());
@@ -338,7 +443,11 @@ void gboost_case(vt::Rng& rng, int64_t icase)
 
         vt::put(vt::J("Reset").i("case", icase).s("desc", desc).i("samples", p.dataset->samples()));
         const auto samples = fit_samples(rng, p.dataset->samples());
-        const auto result  = model.fit(*p.dataset, samples, *loss, fit_params);
+        const auto result  = [&]()
+        {
+            const watched_t watched("gboost fit: " + desc);
+            return model.fit(*p.dataset, samples, *loss, fit_params);
+        }();
         report<gboost_model_t, gboost::result_t>("gboost", model, p, samples, *loss, fit_params, result, max_rounds);
     }
     // the SAME (now fitted) object fitted again, with other hyper-parameters, weak learners, splits, samples and possibly another
@@ -352,7 +461,11 @@ void gboost_case(vt::Rng& rng, int64_t icase)
 
         vt::put(vt::J("Reset").i("case", icase).s("desc", desc).i("samples", p.dataset->samples()));
         const auto samples = fit_samples(rng, p.dataset->samples());
-        const auto result  = model.fit(*p.dataset, samples, *loss2, fit_params);
+        const auto result  = [&]()
+        {
+            const watched_t watched("gboost fit: " + desc);
+            return model.fit(*p.dataset, samples, *loss2, fit_params);
+        }();
         report<gboost_model_t, gboost::result_t>("gboost", model, p, samples, *loss2, fit_params, result, max_rounds);
     }
 }
@@ -378,7 +491,11 @@ void linear_case(vt::Rng& rng, int64_t icase)
         const auto  fit_params = make_fit_params(rng, folds, desc);
         vt::put(vt::J("Reset").i("case", icase).s("desc", desc).i("samples", p.dataset->samples()));
         const auto samples = fit_samples(rng, p.dataset->samples());
-        const auto result  = model->fit(*p.dataset, samples, *loss, fit_params);
+        const auto result  = [&]()
+        {
+            const watched_t watched("linear fit: " + desc);
+            return model->fit(*p.dataset, samples, *loss, fit_params);
+        }();
         report<linear_t, linear::result_t>("linear", *model, p, samples, *loss, fit_params, result, 0);
     }
 }
